@@ -102,7 +102,7 @@ def strip_stats(t):
 
 
 def r2_project_grid(ctx):
-    K.roles_rule(ctx, "R2", [PG], with_return=False)
+    K.roles_rule(ctx, "R2", [PG], with_return=False, require={PG: [{"projection-args"}, {"region-arg"}]})
     ps = ctx.paths(PG)
     ds = any(p.exit == "raise" and p.conds and p.conds[-1][1] and p.conds[-1][0][0] == "call" and callee(p.conds[-1][0]) == "builtins.hasattr" for p in ps)
     nd = any(p.exit == "raise" and p.conds and p.conds[-1][1] and p.conds[-1][0][0] == "cmp" and p.conds[-1][0][1] == "!=" and p.conds[-1][0][3] == const(2) for p in ps)
